@@ -243,6 +243,15 @@ def check_c20(root, pid, tier, seed, replay):
                                       % (','.join(feats), lsv.REPO, ' '.join(cmd), out[-1500:]))
                 res.violations.append(('the library does not build with features [%s]: %s' % (','.join(feats), (errs or [''])[0][:160]), rp, True, 'config_build'))
         res.cov['library_feature_matrix'] = lib
+        # the niche: a value the decoding constructors return for input String rejects may carry any last byte, the one that
+        # encodes None included (asked without reading the value)
+        n, mm, lines, out = run_sweep(root, ['utf8', 2], 900)
+        niche = [l for l in lines if 'NICHE' in l] or [l for l in lines if 'got=Ok want=Err' in l]
+        res.cov['niche_probe_inputs'] = n
+        stats['steps'] += n
+        if niche and len(res.violations) < 5:
+            rp = lsv.write_replay(root, pid, 'niche', '# C20: from_utf8 accepts input String rejects; the value is not a reachable LeanString\n# replay: sweep utf8one <hex>\n%s\n' % '\n'.join(niche[:5]))
+            res.violations.append(('niche: %s' % niche[0][:200], rp, True, 'niche'))
         res.cov['configurations'] = cfgs
         res.cov['size_of_checks'] = 'const assertions of src/lib.rs:39-44 and src/repr.rs:35-40 hold in every configuration that built'
     return lsv.emit(root, res, st)
